@@ -142,6 +142,73 @@ def run(ctx):
         then n random draws"""
         return list(mand) + [draw() for _ in range(n)]
 
+    # One LIVE object per configuration: when the same (class, wrapped function, constructor arguments) recurs - as it does
+    # all along the mandatory grids, whose points alternate across every guard (inside / below / above a bound, positive /
+    # zero / negative, on / off the axis) - the SAME object is evaluated again, and its answer is also compared bit for bit
+    # with a freshly built object's.  Every second call passes its arguments (and builds its object) in an unusual but
+    # valid form: numpy float64 / float32 scalars, Python and numpy integers, bools - whenever the form holds the value exactly.
+    live, grec, call_no = {}, [], [0]
+    form_stats = {"live_object_reused": 0, "compared_with_fresh_object": 0}
+
+    def unusual(v, salt):
+        if isinstance(v, tuple):
+            return tuple(unusual(t, salt + i) for i, t in enumerate(v))
+        if isinstance(v, (bool, str)) or not isinstance(v, (int, float)):
+            return v
+        k = salt % 6
+        if isinstance(v, int):
+            w = (np.int64(v) if k == 0 else np.int32(v) if k == 1 else bool(v) if (k == 2 and v in (0, 1)) else v)
+        else:
+            negzero = (v == 0 and math.copysign(1.0, v) < 0)
+            integral = math.isfinite(v) and v == int(v) and abs(v) < 2 ** 53 and not negzero
+            if k == 0:
+                w = np.float64(v)
+            elif k == 1 and (v != v or math.isinf(v) or (abs(v) < 3e38 and float(np.float32(v)) == v)):
+                w = np.float32(v)
+            elif k == 2 and integral:
+                w = int(v)
+            elif k == 3 and integral and abs(v) < 2 ** 62:
+                w = np.int64(int(v))
+            elif k == 4 and v in (0.0, 1.0) and not negzero:
+                w = bool(v)
+            else:
+                w = v
+        if w is not v:
+            n_ = "form:" + type(w).__name__
+            form_stats[n_] = form_stats.get(n_, 0) + 1
+        return w
+
+    def vec_or_float(o):
+        return (o.x, o.y, o.z) if hasattr(o, "x") else (float(o),)
+
+    def call(cls, fn, ctor, args, kw=None):
+        """(value returned, answer identical to a fresh object's).  rec / grec hold what the LIVE object's wrapped functions received."""
+        kw = kw or {}
+        call_no[0] += 1
+        odd = call_no[0] % 2 == 1
+        key = (cls.__name__, id(fn), tuple(c.hex() if isinstance(c, float) else (id(c) if callable(c) else repr(c)) for c in ctor),
+               tuple(sorted((k_, v_.hex()) for k_, v_ in kw.items())))
+        reused = key in live
+        if not reused:
+            live[key] = cls(fn, *(unusual(tuple(ctor), call_no[0]) if odd else ctor), **kw)
+        rec.clear()
+        grec.clear()
+        out = live[key](*(unusual(tuple(args), call_no[0] + 3) if odd else args))
+        same_as_fresh = True
+        if reused:
+            form_stats["live_object_reused"] += 1
+            a_, b_ = list(rec), list(grec)
+            rec.clear()
+            grec.clear()
+            out2 = cls(fn, *ctor, **kw)(*args)
+            form_stats["compared_with_fresh_object"] += 1
+            same_as_fresh = (len(rec) == len(a_) and all(same_tuple(u, v_) for u, v_ in zip(rec, a_))
+                             and len(grec) == len(b_) and all(same_tuple(u, v_) for u, v_ in zip(grec, b_))
+                             and same_tuple(vec_or_float(out), vec_or_float(out2)))
+            rec[:] = a_
+            grec[:] = b_
+        return out, same_as_fresh
+
     # ---- swizzle / slice / iso ---------------------------------------------------------------------
     for s0 in range(3):
         for s1 in range(3):
@@ -149,54 +216,48 @@ def run(ctx):
                 si = 9 * s0 + 3 * s1 + s2
                 for x, y, z in with_mandatory([Z3[si], Z3[(si + 13) % 27][::-1]], 1 if quick else 6,
                                               lambda: (edge_float(rng), edge_float(rng), edge_float(rng))):
-                    rec.clear()
                     ret[0] = ordinary_float(rng)
-                    out = Swizzle3D(r3, (s0, s1, s2))(x, y, z)
+                    out, fr = call(Swizzle3D, r3, ((s0, s1, s2),), (x, y, z))
                     got = rec[-1] if rec else ()
                     want = tuple((x, y, z)[s] for s in (s0, s1, s2))
                     C.add("swizzle3", "shape%d%d%d" % (s0, s1, s2),
                           "chk_swizzle3 %d %d %d %s %s %s %s" % (s0, s1, s2, fb(x), fb(y), fb(z), fbl(got)),
                           {"shape": (s0, s1, s2), "args": hexl((x, y, z)), "received": hexl(got)},
-                          len(rec) == 1 and same_tuple(got, want) and same_bits(out, ret[0]),
+                          fr and len(rec) == 1 and same_tuple(got, want) and same_bits(out, ret[0]),
                           "Swizzle3D(f, shape)(x,y,z) == f(arg[shape[0]], arg[shape[1]], arg[shape[2]])")
     for x, y in with_mandatory(Z2 + [(0.0, 1.5), (1.5, -0.0)], 12 * scale, lambda: (edge_float(rng), edge_float(rng))):
-        rec.clear()
         ret[0] = ordinary_float(rng)
-        out = Swizzle2D(r2)(x, y)
+        out, fr = call(Swizzle2D, r2, (), (x, y))
         got = rec[-1] if rec else ()
         C.add("swizzle2", "any", "chk_swizzle2 %s %s %s" % (fb(x), fb(y), fbl(got)),
               {"args": hexl((x, y)), "received": hexl(got)},
-              len(rec) == 1 and same_tuple(got, (y, x)) and same_bits(out, ret[0]), "Swizzle2D(f)(x,y) == f(y,x)")
+              fr and len(rec) == 1 and same_tuple(got, (y, x)) and same_bits(out, ret[0]), "Swizzle2D(f)(x,y) == f(y,x)")
     names2 = {0: [0, "x", "X"], 1: [1, "y", "Y"]}
     names3 = {0: [0, "x", "X"], 1: [1, "y", "Y"], 2: [2, "z", "Z"]}
     for axis in (0, 1):
         for sel in names2[axis]:
             for v, x in with_mandatory(Z2 + [(1.5, 0.0), (-0.0, 1.5)], 2 * scale, lambda: (edge_float(rng), edge_float(rng))):
-                rec.clear()
                 ret[0] = ordinary_float(rng)
-                out = Slice2D(r2, sel, v)(x)
+                out, fr = call(Slice2D, r2, (sel, v), (x,))
                 got = rec[-1] if rec else ()
                 want = (v, x) if axis == 0 else (x, v)
                 C.add("slice2", "axis=%r" % (sel,), "chk_slice2 %d %s %s %s" % (axis, fb(v), fb(x), fbl(got)),
                       {"axis": sel, "value": v.hex(), "args": hexl((x,)), "received": hexl(got)},
-                      len(rec) == 1 and same_tuple(got, want) and same_bits(out, ret[0]),
+                      fr and len(rec) == 1 and same_tuple(got, want) and same_bits(out, ret[0]),
                       "Slice2D(f, axis, v)(x) == f with v inserted at position axis")
     for axis in (0, 1, 2):
         for sel in names3[axis]:
             for v, x, y in with_mandatory([(0.0, -0.0, 1.5), (-0.0, 0.0, -0.0), (1.5, 0.0, 0.0), (0.0, 0.0, 0.0)], 2 * scale,
                                           lambda: (edge_float(rng), edge_float(rng), edge_float(rng))):
-                rec.clear()
                 ret[0] = ordinary_float(rng)
-                out = Slice3D(r3, sel, v)(x, y)
+                out, fr = call(Slice3D, r3, (sel, v), (x, y))
                 got = rec[-1] if rec else ()
                 want = [x, y]
                 want.insert(axis, v)
                 C.add("slice3", "axis=%r" % (sel,), "chk_slice3 %d %s %s %s %s" % (axis, fb(v), fb(x), fb(y), fbl(got)),
                       {"axis": sel, "value": v.hex(), "args": hexl((x, y)), "received": hexl(got)},
-                      len(rec) == 1 and same_tuple(got, tuple(want)) and same_bits(out, ret[0]),
+                      fr and len(rec) == 1 and same_tuple(got, tuple(want)) and same_bits(out, ret[0]),
                       "Slice3D(f, axis, v)(x,y) == f with v inserted at position axis")
-    grec = []
-
     def g1(v):
         grec.append((v,))
         return gret[0]
@@ -205,16 +266,13 @@ def run(ctx):
         mand = [t + (fv_, gv_) for t, fv_, gv_ in zip((Z2 if dim == 2 else Z3[:4] + Z3[9:13]), [0.0, -0.0, 1.5, -0.0] * 2, [-0.0, 0.0, 0.0, 1.5] * 2)]
         for tup in with_mandatory(mand, 10 * scale, lambda: tuple(edge_float(rng) for _ in range(dim)) + (edge_float(rng, special=True), edge_float(rng, special=True))):
             args = tup[:dim]
-            rec.clear()
-            grec.clear()
             ret[0], gret[0] = tup[dim], tup[dim + 1]
-            w = IsoMapper2D(r2, g1) if dim == 2 else IsoMapper3D(r3, g1)
-            out = w(*args)
+            out, fr = call(IsoMapper2D, r2, (g1,), args) if dim == 2 else call(IsoMapper3D, r3, (g1,), args)
             gf, gg = (rec[-1] if rec else ()), (grec[-1] if grec else ())
             C.add("iso%d" % dim, "any",
                   "chk_iso%d %s %s %s %s" % (dim, " ".join(fb(a) for a in args), fb(ret[0]), fbl(gf), fbl(gg)),
                   {"args": hexl(args), "inner_value": ret[0].hex(), "inner_received": hexl(gf), "outer_received": hexl(gg)},
-                  len(rec) == 1 and len(grec) == 1 and same_tuple(gf, args) and same_tuple(gg, (ret[0],)) and same_bits(out, gret[0]),
+                  fr and len(rec) == 1 and len(grec) == 1 and same_tuple(gf, args) and same_tuple(gg, (ret[0],)) and same_bits(out, gret[0]),
                   "IsoMapper(f, g)(x...) == g(f(x...))")
 
     # ---- clamps -----------------------------------------------------------------------------------------
@@ -274,10 +332,15 @@ def run(ctx):
             return bs_, tuple(clamp_arg(lo, hi) for lo, hi in bs_)
         for bs, args in with_mandatory(mand, 16 * scale, draw_clamp):
             flat = [b for pair in bs for b in pair]
-            rec.clear()
             ret[0] = ordinary_float(rng)
             cls = (ClampInput1D, ClampInput2D, ClampInput3D)[dim - 1]
-            out = cls((r1, r2, r3)[dim - 1], *flat)(*args)
+            # constructor route: all bounds positional, or only the finite ones by keyword (defaults are -inf / +inf)
+            names = ["xmin", "xmax", "ymin", "ymax", "zmin", "zmax"][:2 * dim]
+            if call_no[0] % 3 == 0:
+                out, fr = call(cls, (r1, r2, r3)[dim - 1], (), args, {n_: b_ for n_, b_ in zip(names, flat) if math.isfinite(b_)})
+                form_stats["clamp_bounds_by_keyword_or_default"] = form_stats.get("clamp_bounds_by_keyword_or_default", 0) + 1
+            else:
+                out, fr = call(cls, (r1, r2, r3)[dim - 1], tuple(flat), args)
             got = rec[-1] if rec else ()
             want = tuple(ref_clamp(a, lo, hi) for a, (lo, hi) in zip(args, bs))
             kinds = "".join("n" if math.isnan(a) else "i" if math.isinf(a) else "b" if a in b else "<" if a < b[0] else ">" if a > b[1] else "="
@@ -285,24 +348,27 @@ def run(ctx):
             C.add("clamp_in%d" % dim, kinds,
                   "chk_clamp_in%d %s %s %s" % (dim, " ".join(fb(b) for b in flat), " ".join(fb(a) for a in args), fbl(got)),
                   {"bounds": hexl(flat), "args": hexl(args), "received": hexl(got)},
-                  len(rec) == 1 and same_tuple(got, want) and same_bits(out, ret[0]),
+                  fr and len(rec) == 1 and same_tuple(got, want) and same_bits(out, ret[0]),
                   "ClampInput(f, bounds)(x...) == f(clamp(x)...) with clamp = nearest point of [min, max]")
         mand = []
         for lo_, hi_ in ((-1.0, 1.0), (0.0, 2.0), (-2.0, 0.0), (-inf, inf), (0.0, inf), (-inf, 0.0)):
             for a_ in (0.0, -0.0, lo_, hi_, math.nextafter(lo_, -inf), math.nextafter(hi_, inf)):
                 mand.append((lo_, hi_, (Z3[len(mand) % 27])[:dim], a_))
         for lo, hi, args, fv_ in with_mandatory(mand, 10 * scale, lambda: bounds() + (tuple(edge_float(rng) for _ in range(dim)), None)):
-            rec.clear()
             ret[0] = clamp_arg(lo, hi) if fv_ is None else fv_
             cls = (ClampOutput1D, ClampOutput2D, ClampOutput3D)[dim - 1]
-            out = cls((r1, r2, r3)[dim - 1], lo, hi)(*args)
+            if call_no[0] % 3 == 0:
+                out, fr = call(cls, (r1, r2, r3)[dim - 1], (), args, {n_: b_ for n_, b_ in (("min", lo), ("max", hi)) if math.isfinite(b_)})
+                form_stats["clamp_bounds_by_keyword_or_default"] = form_stats.get("clamp_bounds_by_keyword_or_default", 0) + 1
+            else:
+                out, fr = call(cls, (r1, r2, r3)[dim - 1], (lo, hi), args)
             got = rec[-1] if rec else ()
             C.add("clamp_out%d" % dim, "nan" if math.isnan(ret[0]) else "below" if ret[0] < lo else "above" if ret[0] > hi else "inside",
                   "(chk_clamp_out %s %s %s %s && chk_swizzle3 0 1 2 %s %s)" % (
                       fb(lo), fb(hi), fb(ret[0]), fb(out), " ".join(fb(a) for a in (args + (0.0, 0.0))[:3]),
                       fbl(tuple(got) + (0.0, 0.0)[:3 - dim] if len(got) == dim else got)),
                   {"bounds": hexl((lo, hi)), "args": hexl(args), "f_value": ret[0].hex(), "out": out.hex()},
-                  len(rec) == 1 and same_tuple(got, args) and same_bits(out, ref_clamp(ret[0], lo, hi)),
+                  fr and len(rec) == 1 and same_tuple(got, args) and same_bits(out, ref_clamp(ret[0], lo, hi)),
                   "ClampOutput(f, min, max)(x...) == clamp(f(x...))")
 
     # ---- periodic ---------------------------------------------------------------------------------------------
@@ -359,15 +425,19 @@ def run(ctx):
                 xs.append(x)
                 ps.append(p)
                 kinds.append(kind)
-        rec.clear()
         ctx.crumb({"stage": "periodic", "wrapper": cls.__name__, "periods": hexl(ps), "args": hexl(xs)}) if i % 25 == 0 else None
-        cls(fn, *ps)(*xs)
+        _, fr = call(cls, fn, tuple(ps), tuple(xs))
         got = rec[-1] if len(rec) == 1 and len(rec[-1]) == dim else (float("nan"),) * dim
+        # read-only attributes report the constructor's periods (PeriodicTransform2D declares none)
+        ob_ = live[(cls.__name__, id(fn), tuple(t.hex() for t in ps), ())]
+        for nm_, pv_ in zip(("period",) if dim == 1 else ("period_x", "period_y", "period_z"), ps):
+            if hasattr(ob_, nm_) and not same_bits(float(getattr(ob_, nm_)), pv_):
+                fr = False
         for d in range(dim):
             C.add("periodic", kinds[d], "chk_periodic %s %s %s" % (fb(xs[d]), fb(ps[d]), fb(got[d])),
                   {"wrapper": cls.__name__, "axis": d, "x": xs[d].hex(), "period": ps[d].hex(), "received": got[d].hex(),
                    "x_repr": repr(xs[d]), "period_repr": repr(ps[d]), "received_repr": repr(got[d])},
-                  len(rec) == 1 and periodic_spec(xs[d], ps[d], got[d]),
+                  fr and len(rec) == 1 and periodic_spec(xs[d], ps[d], got[d]),
                   "periodic extension: inner argument in [0, period) and equal to x - period*floor(x/period) within 2^-52 period")
 
     # ---- axisymmetric / cylindrical ------------------------------------------------------------------------------
@@ -432,20 +502,14 @@ def run(ctx):
         name = ("AxisymmetricMapper", "CylindricalTransform", "VectorAxisymmetricMapper", "VectorCylindricalTransform")[which]
         if i % 20 == 0:
             ctx.crumb({"stage": "axisymmetric / cylindrical", "wrapper": name, "args": hexl((x, y, z))})
-        if which == 0:
-            out = AxisymmetricMapper(r2)(x, y, z)
-        elif which == 1:
-            out = CylindricalTransform(r3)(x, y, z)
-        elif which == 2:
-            out = VectorAxisymmetricMapper(vf2)(x, y, z)
-        else:
-            out = VectorCylindricalTransform(vf3)(x, y, z)
+        out, fr = call((AxisymmetricMapper, CylindricalTransform, VectorAxisymmetricMapper, VectorCylindricalTransform)[which],
+                       (r2, r3, vf2, vf3)[which], (), (x, y, z))
         got = rec[-1] if len(rec) == 1 else (float("nan"),) * (2 + which % 2)
         r, zz = got[0], got[-1]
         meta = {"wrapper": name, "args": hexl((x, y, z)), "args_repr": repr((x, y, z)), "received": hexl(got), "received_repr": repr(got)}
         ok_r = faithful_radius(x, y, r)
         checks = ["accurate_radius %s %s %s" % (fb(x), fb(y), fb(r)), "chk_swizzle2 %s %s %s" % (fb(z), fb(z), fbl((zz, zz)))]
-        spec = len(rec) == 1 and same_bits(zz, z) and ok_r
+        spec = fr and len(rec) == 1 and same_bits(zz, z) and ok_r
         if which % 2 == 1:
             phi = got[1]
             checks.append("chk_quadrant %s %s %s" % (fb(x), fb(y), fb(phi)))
@@ -487,19 +551,127 @@ def run(ctx):
               meta.get("radius_claim") or meta.get("vector_claim") or "%s: wrapped function evaluated at (sqrt(x^2+y^2)%s, z), vector rotated by the toroidal angle" % (
                   name, ", atan2(y,x)" if which % 2 else ""))
 
+    # ---- second-order routes: wrappers nested in wrappers (the inner evaluate() is called from C, not through __call__),
+    # raysect argument functions as the wrapped function (the value comes back through the return value instead of the
+    # recorder), and the Function arithmetic route (wrapper + 0) ------------------------------------------------------------
+    ctx.crumb({"stage": "nested wrappers / alternative routes"})
+    from raysect.core.math.function.float import Arg1D, Arg2D, Arg3D
+    Fl = lambda t: "(F_of_bits %s)" % fb(t)
+    for i in range(8 * scale + 8):
+        x, y, z = (edge_float(rng), edge_float(rng), edge_float(rng)) if i >= 8 else Z3[(5 * i + 1) % 27]
+        (xl, xh), (yl, yh), (zl, zh) = ((-1.0, 1.0), (0.0, inf), (-inf, 0.0)) if i < 8 else (bounds(), bounds(), bounds())
+        p_ = rng.choice([1.0, 2.5, 0.1, 2 * math.pi])
+        v_ = edge_float(rng) if i % 2 else rng.choice([0.0, -0.0])
+        ax = i % 2
+        s0, s1, s2 = rng.randrange(3), rng.randrange(3), rng.randrange(3)
+        ret[0] = ordinary_float(rng)
+        routes = []
+        rec.clear()
+        out = ClampInput2D(Swizzle2D(r2), xl, xh, yl, yh)(x, y)
+        routes.append(("ClampInput2D(Swizzle2D(f))", list(rec), out, ret[0],
+                       "same (clamp_in2 PrimFloat.ltb %s %s %s %s (swizzle2 rec2) %s %s) %%s" % (Fl(xl), Fl(xh), Fl(yl), Fl(yh), Fl(x), Fl(y)),
+                       (ref_clamp(y, yl, yh), ref_clamp(x, xl, xh))))
+        rec.clear()
+        out = Swizzle2D(ClampInput2D(r2, xl, xh, yl, yh))(x, y)
+        routes.append(("Swizzle2D(ClampInput2D(f))", list(rec), out, ret[0],
+                       "same (swizzle2 (clamp_in2 PrimFloat.ltb %s %s %s %s rec2) %s %s) %%s" % (Fl(xl), Fl(xh), Fl(yl), Fl(yh), Fl(x), Fl(y)),
+                       (ref_clamp(y, xl, xh), ref_clamp(x, yl, yh))))
+        rec.clear()
+        out = PeriodicTransform1D(Slice2D(r2, ax, v_), p_)(x)
+        rem_ = rec[-1][1 - ax] if rec and len(rec[-1]) == 2 else float("nan")
+        routes.append(("PeriodicTransform1D(Slice2D(f))", list(rec), out, ret[0],
+                       "same (slice2 %d %s rec2 (remainder_F %s %s)) %%s" % (ax, Fl(v_), Fl(x), Fl(p_)),
+                       ((v_, rem_) if ax == 0 else (rem_, v_)) if periodic_spec(x, p_, rem_) else None))
+        rec.clear()
+        out = Swizzle3D(ClampInput3D(r3, xl, xh, yl, yh, zl, zh), (s0, s1, s2))(x, y, z)
+        sw = tuple((x, y, z)[t] for t in (s0, s1, s2))
+        routes.append(("Swizzle3D(ClampInput3D(f))", list(rec), out, ret[0],
+                       "same (swizzle3 %d %d %d (clamp_in3 PrimFloat.ltb %s %s %s %s %s %s rec3) %s %s %s) %%s" % (
+                           s0, s1, s2, Fl(xl), Fl(xh), Fl(yl), Fl(yh), Fl(zl), Fl(zh), Fl(x), Fl(y), Fl(z)),
+                       (ref_clamp(sw[0], xl, xh), ref_clamp(sw[1], yl, yh), ref_clamp(sw[2], zl, zh))))
+        rec.clear()
+        out = (Swizzle2D(r2) + 0.0)(x, y)
+        routes.append(("(Swizzle2D(f) + 0.0)", list(rec), out, ret[0] + 0.0, "same (swizzle2 rec2 %s %s) %%s" % (Fl(x), Fl(y)), (y, x)))
+        for name, rr, out, want_out, tmpl, want in routes:
+            got = rr[-1] if rr else ()
+            C.add("nested", name, tmpl % fbl(got), {"wrapper": name, "args": hexl((x, y, z)), "received": hexl(got),
+                                                   "bounds": hexl((xl, xh, yl, yh, zl, zh)), "period": p_, "slice_value": v_, "shape": (s0, s1, s2)},
+                  len(rr) == 1 and want is not None and same_tuple(got, want) and same_bits(out, want_out),
+                  "%s: the wrapped callable receives the composed mapping of the arguments" % name)
+        # argument functions: what the wrapper returns IS the routed argument
+        argroutes = [
+            ("Swizzle2D(Arg2D('x'))", Swizzle2D(Arg2D("x"))(x, y), y, "same [swizzle2 (fun a b : PrimFloat.float => a) %s %s] [%%s]" % (Fl(x), Fl(y))),
+            ("Slice3D(Arg3D('y'))", Slice3D(Arg3D("y"), ax, v_)(x, y), x if ax == 0 else v_,
+             "same [slice3 %d %s (fun a b c : PrimFloat.float => b) %s %s] [%%s]" % (ax, Fl(v_), Fl(x), Fl(y))),
+            ("ClampInput1D(Arg1D())", ClampInput1D(Arg1D(), xl, xh)(x), ref_clamp(x, xl, xh),
+             "same [clamp_in1 PrimFloat.ltb %s %s (fun a : PrimFloat.float => a) %s] [%%s]" % (Fl(xl), Fl(xh), Fl(x))),
+            ("ClampOutput1D(number as constant function)", ClampOutput1D(v_, xl, xh)(x), ref_clamp(v_, xl, xh),
+             "chk_clamp_out %s %s %s %%s" % (fb(xl), fb(xh), fb(v_))),
+            ("PeriodicTransform1D(Arg1D())", PeriodicTransform1D(Arg1D(), p_)(x), None, "chk_periodic %s %s %%s" % (fb(x), fb(p_))),
+            ("Swizzle3D(Arg3D('z'))", Swizzle3D(Arg3D("z"), (s0, s1, s2))(x, y, z), (x, y, z)[s2],
+             "same [swizzle3 %d %d %d (fun a b c : PrimFloat.float => c) %s %s %s] [%%s]" % (s0, s1, s2, Fl(x), Fl(y), Fl(z))),
+        ]
+        for name, out, want, tmpl in argroutes:
+            ok = periodic_spec(x, p_, out) if want is None else same_bits(out, want)
+            C.add("nested", name, tmpl % fb(out), {"wrapper": name, "args": hexl((x, y, z)), "returned": out.hex(), "bounds": hexl((xl, xh)),
+                                                  "period": p_, "slice_value": v_, "axis": ax, "shape": (s0, s1, s2)}, ok,
+                  "%s returns the routed argument itself" % name)
+
     # ---- polygon masks ---------------------------------------------------------------------------------------------
     ctx.crumb({"stage": "polygon masks"})
     n_poly = 24 * scale
     n_amb = 0
-    for i in range(n_poly):
-        poly, pkind = gen_polygon(rng)
+    rejected_forms = []
+
+    def vertex_form(poly, k):
+        """the same vertex list in an unusual but valid container"""
+        arr = np.array(poly, dtype=np.float64)
+        if k == 0:
+            return [list(p) for p in poly], "list_of_lists"
+        if k == 1:
+            return tuple(tuple(p) for p in poly), "tuple_of_tuples"
+        if k == 2:
+            return arr, "float64_array"
+        if k == 3 and np.array_equal(arr.astype(np.float32).astype(np.float64), arr):
+            return arr.astype(np.float32), "float32_array"
+        if k == 4:
+            return np.hstack([arr, np.full((len(poly), 1), 9.0)])[:, :2], "non_contiguous_view"
+        if k == 5:
+            ro = arr.copy()
+            ro.setflags(write=False)
+            return ro, "read_only_array"
+        if k == 6 and np.abs(arr).max() < 2.0 ** 62 and np.array_equal(arr, arr.astype(np.int64)):
+            return arr.astype(np.int64), "int64_array"
+        return [tuple(p) for p in poly], "list_of_tuples"
+    for i in range(n_poly + 2 + scale):
+        if i >= n_poly:
+            # the smallest polygon: a triangle (N = 3), both orientations.  (Two vertices are not a polygon: raysect's
+            # triangulate2d reads out of bounds for N < 3 and can crash the interpreter - observed, reported, not exercised.)
+            a_, b_ = dyadic(rng, -2, 2, 4), dyadic(rng, -2, 2, 4)
+            poly0 = [(a_, b_), (a_ + 1.0, b_ + (i % 3) * 0.5), (a_ + 0.25, b_ + 1.5)]
+            if i % 2:
+                poly0.reverse()
+            pkind = "triangle"
+        else:
+            poly0, pkind = gen_polygon(rng)
+        # scale covariance: polygon and points multiplied by the same power of two (exact)
+        sc = 2.0 ** ([0, 0, 0, -40, -10, 10, 40, 200, -200][i % 9])
+        pkind += "/x2^%d" % int(math.log2(sc))
+        poly = [(a * sc, b * sc) for a, b in poly0]
         ctx.crumb({"stage": "polygon masks", "polygon": poly})
-        mask = PolygonMask2D(poly)
-        xs_, ys_ = [p[0] for p in poly], [p[1] for p in poly]
+        verts, vform = vertex_form(poly, i % 8)
+        form_stats["vertices:" + vform] = form_stats.get("vertices:" + vform, 0) + 1
+        if i % 8 == 7:
+            # recorded outcome of the unchanged code: a Fortran-ordered vertex array is rejected with ValueError
+            e = exc_name(lambda: PolygonMask2D(np.asfortranarray(np.array(poly))))
+            rejected_forms.append(("PolygonMask2D(Fortran-ordered Nx2 array)", e, "ValueError"))
+        mask = PolygonMask2D(verts)
+        xs_, ys_ = [p[0] for p in poly0], [p[1] for p in poly0]
         size = max(max(xs_) - min(xs_), max(ys_) - min(ys_))
         polyq = "[" + "; ".join("(%s, %s)" % (qlit(a), qlit(b)) for a, b in poly) + "]"
         npts = 0
         tries = 0
+        first = None
         while npts < 10 and tries < 200:
             tries += 1
             k = rng.randrange(4)
@@ -512,7 +684,11 @@ def run(ctx):
             elif k == 1:
                 px = rng.choice(xs_)
                 pcls = "below_above_vertex"
-            if polygon_margin(poly, (px, py)) < Fraction(size) / 2 ** 20:
+            if first is not None and npts == 9:
+                px, py, pcls = first[0], first[1], "first_point_again"      # the same live mask asked again
+            amb = polygon_margin(poly0, (px, py)) < Fraction(size) / 2 ** 20
+            px, py = px * sc, py * sc
+            if amb:
                 n_amb += 1
                 val = mask(px, py)
                 if val not in (0.0, 1.0):
@@ -520,17 +696,20 @@ def run(ctx):
                                     "claim": "mask value is neither 0 nor 1"})
                 continue
             npts += 1
-            val = mask(px, py)
+            val = mask(*unusual((px, py), npts + i)) if npts % 2 else mask(px, py)
+            if first is None:
+                first = (px / sc, py / sc, val)
             want = crossing_inside(poly, (px, py))
             C.add("mask", "%s/%s/%s" % (pkind, pcls, "in" if want else "out"),
                   "chk_mask %s (%s, %s) %s" % (polyq, qlit(px), qlit(py), "true" if val == 1.0 else "false"),
-                  {"polygon": poly, "point": (px, py), "value": val, "kind": pkind},
-                  val in (0.0, 1.0) and (val == 1.0) == want, "PolygonMask2D(poly)(x,y) == 1 iff (x,y) is inside the polygon")
+                  {"polygon": poly, "point": (px, py), "value": val, "kind": pkind, "vertices_given_as": vform},
+                  val in (0.0, 1.0) and (val == 1.0) == want and (pcls != "first_point_again" or val == first[2]),
+                  "PolygonMask2D(poly)(x,y) == 1 iff (x,y) is inside the polygon")
 
     # ---- samplers -------------------------------------------------------------------------------------------------------
     ctx.crumb({"stage": "samplers"})
     from c13_samplers import sampler_cases
-    sampler_cases(ctx, C, samplers, Vector3D, rng, 28 * scale)
+    sampler_cases(ctx, C, samplers, Vector3D, rng, 126 if quick else 28 * scale)
 
     # ---- constructor validation ---------------------------------------------------------------------------------------
     ctx.crumb({"stage": "constructor validation"})
@@ -594,6 +773,26 @@ def run(ctx):
                           {"wrapper": cls.__name__, "periods": ps, "position": pos, "raised": e}, e == want,
                           "%s: period must be %s" % (cls.__name__, "positive" if dim == 1 else ">= 0 (0 = not periodic)"))
 
+    # ---- argument forms the unchanged code rejects: the rejection is the recorded, expected outcome -------------------------
+    rejected_forms += [
+        ("Swizzle3D(f, (2,0,1))('1', 2, 3)  (string argument)", exc_name(lambda: Swizzle3D(r3, (2, 0, 1))("1", 2, 3)), "TypeError"),
+        ("Swizzle2D(4.0)  (a number as the wrapped function)", exc_name(lambda: Swizzle2D(4.0)), "TypeError"),
+        ("ClampInput1D(None)(1.0)  (the clamp constructors do not check callability; the call fails)", exc_name(lambda: ClampInput1D(None)(1.0)), "TypeError"),
+        ("PeriodicTransform1D(f, '1')", exc_name(lambda: PeriodicTransform1D(r1, "1")), "TypeError"),
+        ("Slice2D(f, None, 1.0)", exc_name(lambda: Slice2D(r2, None, 1.0)), "ValueError"),
+        ("PolygonMask2D([])", exc_name(lambda: PolygonMask2D([])), "ValueError"),
+        ("PolygonMask2D(None)", exc_name(lambda: PolygonMask2D(None)), "TypeError"),
+        ("sample1d(f, [0., 1., 3])  (list instead of tuple)", exc_name(lambda: samplers.sample1d(r1, [0., 1., 3])), "TypeError"),
+        ("sample2d_points(f, zeros((2,3)))", exc_name(lambda: samplers.sample2d_points(r2, np.zeros((2, 3)))), "ValueError"),
+        ("sample3d_grid(f, [[1.,2.]], [1.], [2.])  (2-D axis)", exc_name(lambda: samplers.sample3d_grid(r3, [[1., 2.]], [1.], [2.])), "ValueError"),
+    ]
+    ro_ = np.arange(3.0)
+    ro_.setflags(write=False)
+    rejected_forms.append(("sample1d_points(f, read-only array)", exc_name(lambda: samplers.sample1d_points(r1, ro_)), "ValueError"))
+    for label, e, want in rejected_forms:
+        C.add("forms_rejected", label.split("(")[0], "true", {"call": label, "raised": e, "recorded_outcome_of_unchanged_code": want}, e == want,
+              "%s: recorded outcome %s, observed %s" % (label, want, e))
+
     # ---- run the correspondence in Coq ---------------------------------------------------------------------------------------
     per_file = 250
     files = []
@@ -649,6 +848,7 @@ def run(ctx):
                 "class is not 'ordinary' (edge arguments: signed zeros, subnormals, tiny negatives, exact multiples of the period, huge "
                 "values, bounds hit exactly, NaN/inf for clamps, branch cut of atan2, rays through vertices, n = 1) : %d" % nontriv,
         "distribution": {"by_family": fam, "by_family_and_class": dict(sorted(C.dist.items())),
+                         "argument_forms_and_live_objects": form_stats,
                          "mask_points_skipped_as_ambiguous(within 2^-20 of an edge)": n_amb,
                          "radius_cases_with_overflowing_or_underflowing_squares": sum(
                              1 for m in C.meta if m["family"].startswith("radius") and m["cls"] in ("huge", "tiny"))},
